@@ -5,6 +5,7 @@ aggregators.  Property theorems only; the simultaneous induction on the fuel liv
 `AstGrepVerif/Lemmas/MatchSound.lean`.
 -/
 import AstGrepVerif.Lemmas.MatchSound
+import AstGrepVerif.Lemmas.MatchNodes
 
 set_option linter.unusedSimpArgs false
 set_option linter.unusedVariables false
@@ -377,5 +378,111 @@ example :
       | .ok (.matchedBoth, (env, calls)) =>
         (calls.map (·.map Tree.id), env.multi.map (fun b => (b.1, b.2.map Tree.id)))
       | _ => ([], [])) = ([[4, 5]], [(['A'], [4])]) := by decide
+
+/-! ## The reported length: never beyond the node, never inside a token -/
+
+/-- every candidate node the matcher hands to `ComputeEnd` belongs to the candidate's subtree,
+so the end offset it reports is `0` (nothing was handed over: every pattern node was skipped)
+or the end of a node of the subtree.  No hypothesis on the tree or the pattern. -/
+theorem match_end_at_node_end (s : Strictness) (src : Bytes) (fuel : Nat) (p : PNode) (c : Tree)
+    (e : Nat) (h : matchEnd s src fuel p c = .ok (some e)) :
+    e = 0 ∨ ∃ d ∈ c.preorder, e = d.stop := by
+  unfold matchEnd at h
+  split at h
+  · cases h
+  · next e1 hm =>
+    simp only [Except.ok.injEq, Option.some.injEq] at h; subst h
+    exact matchNode_end_state s src fuel p c 0 _ _ hm
+  · cases h
+
+/-- … and, for a tree with well-formed byte ranges, it never exceeds the node -/
+theorem match_end_bounds (s : Strictness) (src : Bytes) (fuel : Nat) (p : PNode) (c : Tree)
+    (hwf : Tree.WF c) (e : Nat) (h : matchEnd s src fuel p c = .ok (some e)) :
+    (e = 0 ∨ ∃ d ∈ c.preorder, e = d.stop) ∧ e ≤ c.stop := by
+  have h1 := match_end_at_node_end s src fuel p c e h
+  refine ⟨h1, ?_⟩
+  rcases h1 with rfl | ⟨d, hd, rfl⟩
+  · exact Nat.zero_le _
+  · exact (Tree.wf_bounds c hwf d hd).2.2
+
+theorem matchLen_eq_some {s : Strictness} {src : Bytes} {fuel : Nat} {p : PNode} {c : Tree}
+    {n : Nat} (h : matchLen s src fuel p c = .ok (some n)) :
+    ∃ e, matchEnd s src fuel p c = .ok (some e) ∧ c.start ≤ e ∧ c.start + n = e := by
+  unfold matchLen at h
+  split at h
+  · cases h
+  · cases h
+  · next e he =>
+    split at h
+    · cases h
+    · next hlt =>
+      simp only [Except.ok.injEq, Option.some.injEq] at h
+      exact ⟨e, he, by omega, by omega⟩
+
+/-- `get_match_len`: the matched prefix `[c.start, c.start + n)` lies inside the node, and it is
+empty or stops at the end of a node of the candidate's subtree -/
+theorem match_len_bounds (s : Strictness) (src : Bytes) (fuel : Nat) (p : PNode) (c : Tree)
+    (hwf : Tree.WF c) (n : Nat) (h : matchLen s src fuel p c = .ok (some n)) :
+    c.start + n ≤ c.stop ∧ (n = 0 ∨ ∃ d ∈ c.preorder, c.start + n = d.stop) := by
+  obtain ⟨e, he, hle, hn⟩ := matchLen_eq_some h
+  obtain ⟨h1, h2⟩ := match_end_bounds s src fuel p c hwf e he
+  refine ⟨by omega, ?_⟩
+  rcases h1 with rfl | ⟨d, hd, rfl⟩
+  · exact .inl (by omega)
+  · exact .inr ⟨d, hd, hn⟩
+
+/-- hence the cut never splits a token: it is not strictly inside any childless node of the
+candidate's subtree -/
+theorem match_len_no_token_split (s : Strictness) (src : Bytes) (fuel : Nat) (p : PNode)
+    (c : Tree) (hwf : Tree.WF c) (n : Nat) (h : matchLen s src fuel p c = .ok (some n))
+    (l : Tree) (hl : l ∈ c.preorder) (hleaf : l.children = []) :
+    ¬ (l.start < c.start + n ∧ c.start + n < l.stop) := by
+  obtain ⟨e, he, hle, hn⟩ := matchLen_eq_some h
+  rcases match_end_at_node_end s src fuel p c e he with rfl | ⟨d, hd, rfl⟩
+  · omega
+  · rw [hn]; exact Tree.wf_no_split c hwf d hd l hl hleaf
+
+/-- The disjunct `n = 0` is needed: when every pattern child is skipped (`ast`: two unnamed
+pattern tokens against one unnamed candidate token of another kind) nothing is handed to
+`ComputeEnd`, the end stays `0`, and for a node starting at offset `0` the reported length is
+`0` although no node of the subtree ends there. -/
+theorem match_len_zero_example :
+    let p := PNode.internal 10 [.terminal [97] false 2, .terminal [98] false 3]
+    let c := Tree.node ⟨10, true, false, false, 0, 1, none, 0⟩
+      [Tree.node ⟨4, false, false, false, 0, 1, none, 1⟩ []]
+    PatternWF p ∧ Tree.WF c ∧
+    (match matchLen .ast [99] 20 p c with | .ok (some n) => some n | _ => none) = some 0 ∧
+    ∀ d ∈ c.preorder, d.stop ≠ 0 := by decide
+
+/-- The stronger reading "the cut never falls strictly inside a direct child" is false by design:
+under `smart` the children after the last pattern child are ignored at every level.  The
+pattern `f(x` (call(`f`, arguments(`(`, `x`))) matches the node `f(x,y)` with length 3: strictly
+inside the direct child `(x,y)`, at the end of the grandchild `x`. -/
+theorem match_end_direct_child_counterexample :
+    let p := PNode.internal 10 [.terminal [102] true 1,
+      .internal 11 [.terminal [40] false 2, .terminal [120] true 1]]
+    let src : Bytes := [102, 40, 120, 44, 121, 41]
+    let c := Tree.node ⟨10, true, false, false, 0, 6, none, 0⟩
+      [.node ⟨1, true, false, false, 0, 1, none, 1⟩ [],
+       .node ⟨11, true, false, false, 1, 6, none, 2⟩
+         [.node ⟨2, false, false, false, 1, 2, none, 3⟩ [],
+          .node ⟨1, true, false, false, 2, 3, none, 4⟩ [],
+          .node ⟨6, false, false, false, 3, 4, none, 5⟩ [],
+          .node ⟨1, true, false, false, 4, 5, none, 6⟩ [],
+          .node ⟨3, false, false, false, 5, 6, none, 7⟩ []]]
+    PatternWF p ∧ Tree.WF c ∧
+    (match matchLen .smart src 40 p c with | .ok (some n) => some n | _ => none) = some 3 ∧
+    (∃ ch ∈ c.children, ch.start < c.start + 3 ∧ c.start + 3 < ch.stop) ∧
+    (∃ ch ∈ c.children, ∃ g ∈ ch.children, c.start + 3 = g.stop) := by decide
+
+/-- non-vacuity: the example tree has well-formed ranges and the example pattern matches all
+of it (`f(x)`, length 4 = the end of the node itself) -/
+example : Tree.WF exTree ∧
+    (match matchLen .smart exSrc 40 exPattern exTree with | .ok (some n) => some n | _ => none)
+      = some 4 := by decide
+
+/-- a tree whose child sticks out of its parent is rejected by `Tree.WF` -/
+example : ¬ Tree.WF (.node ⟨10, true, false, false, 0, 2, none, 0⟩
+    [.node ⟨1, true, false, false, 1, 3, none, 1⟩ []]) := by decide
 
 end AGV.C03
